@@ -60,9 +60,9 @@ Definition ds_eqb (a b : ds) : bool :=
 (** the property on the model: loaded => every row of the file, converted as one chunk; never a crash *)
 Definition model_prop (k : case) : bool :=
   match run k with
-  | Loaded d => match conv_chunk (pfloat_of (k_floats k)) (mk_cfg k) (rows_of (mk_evs (k_evs k))) with
-                | Ok d' => ds_eqb d d'
-                | _ => false
+  | Loaded d => match conv_spec (pfloat_of (k_floats k)) (mk_cfg k) (rows_of (mk_evs (k_evs k))) with
+                | Some d' => ds_eqb d d'
+                | None => false
                 end
   | Error => true
   | Crash => false
